@@ -925,25 +925,46 @@ func (e *evaluator) eval(t *Term) uint64 {
 		return v
 	}
 	var r uint64
-	switch t.op {
-	case OpNot:
-		r = e.eval(t.a[0]) ^ 1
-	case OpAnd:
-		r = e.eval(t.a[0]) & e.eval(t.a[1])
-	case OpOr:
-		r = e.eval(t.a[0]) | e.eval(t.a[1])
-	case OpIte:
+	if t.op == OpIte {
+		// lazy: only the selected side
 		if e.eval(t.a[0]) == 1 {
 			r = e.eval(t.a[1])
 		} else {
 			r = e.eval(t.a[2])
 		}
+	} else {
+		var av [3]uint64
+		for i := 0; i < int(t.n); i++ {
+			av[i] = e.eval(t.a[i])
+		}
+		r = evalOp(t, av)
+	}
+	e.memo[t.id] = r
+	return r
+}
+
+// evalOp applies t's operator to concrete argument values.
+func evalOp(t *Term, av [3]uint64) uint64 {
+	var r uint64
+	switch t.op {
+	case OpNot:
+		r = av[0] ^ 1
+	case OpAnd:
+		r = av[0] & av[1]
+	case OpOr:
+		r = av[0] | av[1]
+	case OpIte:
+		if av[0] == 1 {
+			r = av[1]
+		} else {
+			r = av[2]
+		}
 	case OpEq:
-		if e.eval(t.a[0]) == e.eval(t.a[1]) {
+		if av[0] == av[1] {
 			r = 1
 		}
 	case OpULt, OpULe, OpSLt, OpSLe:
-		x, y := e.eval(t.a[0]), e.eval(t.a[1])
+		x, y := av[0], av[1]
 		w := t.a[0].sort
 		var b bool
 		switch t.op {
@@ -960,19 +981,19 @@ func (e *evaluator) eval(t *Term) uint64 {
 			r = 1
 		}
 	case OpBNot:
-		r = ^e.eval(t.a[0]) & mask(t.sort)
+		r = ^av[0] & mask(t.sort)
 	case OpNeg:
-		r = -e.eval(t.a[0]) & mask(t.sort)
+		r = -av[0] & mask(t.sort)
 	case OpExtract:
-		r = (e.eval(t.a[0]) >> (t.val & 0xff)) & mask(t.sort)
+		r = (av[0] >> (t.val & 0xff)) & mask(t.sort)
 	case OpZExt:
-		r = e.eval(t.a[0])
+		r = av[0]
 	case OpSExt:
-		r = uint64(sext(e.eval(t.a[0]), t.a[0].sort)) & mask(t.sort)
+		r = uint64(sext(av[0], t.a[0].sort)) & mask(t.sort)
 	case OpConcat:
-		r = e.eval(t.a[0])<<uint(t.a[1].sort) | e.eval(t.a[1])
+		r = av[0]<<uint(t.a[1].sort) | av[1]
 	case OpSDiv, OpSRem:
-		x, y := e.eval(t.a[0]), e.eval(t.a[1])
+		x, y := av[0], av[1]
 		if y == 0 {
 			// SMT-LIB semantics
 			if t.op == OpSRem {
@@ -986,15 +1007,15 @@ func (e *evaluator) eval(t *Term) uint64 {
 			r, _ = foldBin(t.op, t.sort, x, y)
 		}
 	case OpIAdd:
-		r = e.eval(t.a[0]) + e.eval(t.a[1])
+		r = av[0] + av[1]
 	case OpISub:
-		r = e.eval(t.a[0]) - e.eval(t.a[1])
+		r = av[0] - av[1]
 	case OpIMul:
-		r = e.eval(t.a[0]) * e.eval(t.a[1])
+		r = av[0] * av[1]
 	case OpINeg:
-		r = -e.eval(t.a[0])
+		r = -av[0]
 	case OpIDiv, OpIMod:
-		x, y := int64(e.eval(t.a[0])), int64(e.eval(t.a[1]))
+		x, y := int64(av[0]), int64(av[1])
 		if y == 0 {
 			r = 0
 		} else {
@@ -1013,17 +1034,16 @@ func (e *evaluator) eval(t *Term) uint64 {
 			}
 		}
 	case OpILt:
-		if int64(e.eval(t.a[0])) < int64(e.eval(t.a[1])) {
+		if int64(av[0]) < int64(av[1]) {
 			r = 1
 		}
 	case OpILe:
-		if int64(e.eval(t.a[0])) <= int64(e.eval(t.a[1])) {
+		if int64(av[0]) <= int64(av[1]) {
 			r = 1
 		}
 	default:
-		r, _ = foldBin(t.op, t.sort, e.eval(t.a[0]), e.eval(t.a[1]))
+		r, _ = foldBin(t.op, t.sort, av[0], av[1])
 	}
-	e.memo[t.id] = r
 	return r
 }
 
